@@ -130,3 +130,35 @@ func Harness_C19_unsigned_changes_hash() {
 		assert(same == (t1.Hash() == t2.Hash()), "hash-equal-iff-unsigned-content-equal")
 	}
 }
+
+// Harness_C19_size_limit: an encoding longer than MAX_TX_SIZE is rejected on both entry points. The bulk
+// of the bytes is a concrete signature blob; the header fields that matter stay symbolic.
+func Harness_C19_size_limit() {
+	head := nondetBytes("head", c19Header)
+	head[0] = 0
+	head[1] = byte(InvokeNeo)
+	buf := append([]byte{}, head...)
+	buf = append(buf, 1, nondetU8("code"), 0) // code, attributes
+	buf = append(buf, 1)                     // one signature set
+	// invocation script: 0xFE + 4-byte length, making the whole encoding exceed the limit by `over` bytes
+	over := 1 + nondetRange("over", 2)
+	rest := MAX_TX_SIZE + over - len(buf) - 5 - 1
+	buf = append(buf, 0xFE, byte(rest), byte(rest>>8), byte(rest>>16), byte(rest>>24))
+	buf = append(buf, make([]byte, rest)...)
+	buf = append(buf, 0) // empty verification script
+	assert(len(buf) == MAX_TX_SIZE+over, "harness-built-oversized-encoding")
+	tx := new(Transaction)
+	err := tx.Deserialization(common.NewZeroCopySource(buf))
+	assert(err != nil, "oversized-encoding-rejected-by-deserialization")
+	_, err2 := TransactionFromRawBytes(buf)
+	assert(err2 != nil, "oversized-encoding-rejected-by-fromrawbytes")
+	// exactly at the limit is still accepted
+	at := buf[:0:0]
+	at = append(at, buf[:c19Header+4]...)
+	rest2 := MAX_TX_SIZE - len(at) - 5 - 1
+	at = append(at, 0xFE, byte(rest2), byte(rest2>>8), byte(rest2>>16), byte(rest2>>24))
+	at = append(at, make([]byte, rest2)...)
+	at = append(at, 0)
+	tx2 := new(Transaction)
+	assert(tx2.Deserialization(common.NewZeroCopySource(at)) == nil, "encoding-at-the-limit-accepted")
+}
